@@ -111,6 +111,7 @@ Res(e, out, drop, dup) == [e |-> e, out |-> out, drop |-> drop, dup |-> dup, ok 
 SelectSeqIdx(e, P(_)) == LET idx == SelectSeq([j \in 1..Len(e) |-> j], P) IN [k \in 1..Len(idx) |-> e[idx[k]]]    \* elements at the 1-based positions satisfying P
 RemoveAtSeq(e, i) == SubSeq(e, 1, i - 1) \o SubSeq(e, i + 1, Len(e))      \* i 1-based
 InsertAtSeq(e, i, x) == SubSeq(e, 1, i - 1) \o <<x>> \o SubSeq(e, i, Len(e))
+\* ("split" is not in ArrOps: it is used by the SplitOff action, which builds the new array)
 ArrOps == {"push", "pop", "insert", "remove", "swap_remove", "truncate", "clear", "resize", "extend_from_within", "set", "take_elem", "append", "drain", "into_iter", "retain_even"}
 ArrOp(op, e, x, i) ==
   CASE op = "push"   -> Res(Append(e, x), <<>>, <<>>, <<>>)
@@ -138,6 +139,8 @@ ArrOp(op, e, x, i) ==
     [] op = "probe" -> Reject(e)
     \* drain(..i): the first i elements are handed out in order (panics when i > len)
     [] op = "drain" -> IF i > Len(e) THEN Reject(e) ELSE Res(SubSeq(e, i + 1, Len(e)), SubSeq(e, 1, i), <<x>>, <<>>)
+    \* split_off(i): the first i elements stay, the rest are moved out (into a new array, see SplitOff); panics when i > len
+    [] op = "split" -> IF i > Len(e) THEN Reject(e) ELSE Res(SubSeq(e, 1, i), SubSeq(e, i + 1, Len(e)), <<x>>, <<>>)
     \* mem::take(array).into_iter(): every element is handed out in order, an empty array stays behind;
     \* the iterator's len / size_hint / as_slice report the elements not yet yielded
     [] op = "into_iter" -> Res(<<>>, e, <<x>>, <<>>)
@@ -447,6 +450,19 @@ Probe(s, p, e) ==
   /\ UNCHANGED model
   /\ Step([op |-> "probe", s |-> s, p |-> p, e |-> e])
 
+\* o = array_at_p.split_off(i): the tail becomes a new array (an owned container of its own) in a free slot
+SplitOff(s, p, i, o) ==
+  /\ slot[s] # None /\ o # s /\ FirstFree(o)
+  /\ PlainAt(model[s], p) # PNone /\ PlainAt(model[s], p).t = "arr"
+  /\ LET r == RepApply(Heap, slot[s], p, "arr", "split", Num(7), i)
+         pm == PlainApply(model[s], p, "arr", "split", PNum(7), i)
+         id == FreshV(r.h)
+         h2 == IF r.ok THEN [r.h EXCEPT !.vec[id] = [rc |-> 1, used |-> TRUE, elems |-> r.out]] ELSE r.h
+     IN /\ Put(h2)
+        /\ slot' = [slot EXCEPT ![s] = r.v, ![o] = IF r.ok THEN Arr(id) ELSE None]
+        /\ model' = [model EXCEPT ![s] = pm.v, ![o] = IF pm.ok THEN PArr(pm.out) ELSE PNone]
+        /\ Step([op |-> "split_off", s |-> s, p |-> p, i |-> i, o |-> o, ok |-> pm.ok])
+
 \* target.append(&mut other): all members of the container in slot src move into the container at path p of slot s;
 \* src stays an (empty) container.  Both sides are promoted (as_mut) first.
 AppendFrom(s, p, kind, src) ==
@@ -479,6 +495,7 @@ Next ==
   \/ DeBad \/ DeClose
   \/ \E s \in Slots, e \in {PKey("z"), PIdx(5)} : \E p \in (IF slot[s] = None THEN {} ELSE {q \in PathsOfPlain(model[s]) : Len(q) <= 1}) : Probe(s, p, e)
   \/ \E s, t \in Slots : s # t /\ FirstFree(t) /\ Take(s, t)
+  \/ \E s, o \in Slots, i \in {0, 1, 3} : \E p \in (IF slot[s] = None THEN {} ELSE ContainerPaths(s)) : SplitOff(s, p, i, o)
   \/ \E s \in Slots : \E p \in (IF slot[s] = None THEN {} ELSE ContainerPaths(s)) :
        \/ \E op \in Consuming, src \in {"lit"} \cup (Slots \ {s}), i \in {0, 2} : Mutate(s, p, "arr", op, src, i, OutSlot(s, src))
        \/ \E op \in ArrOps \ (Consuming \cup {"take_elem", "append", "into_iter", "retain_even"}), i \in {0, 1} : Mutate(s, p, "arr", op, "lit", i, OutSlot(s, "lit"))
